@@ -478,7 +478,7 @@ package lang
 //@   ensures[C12] message: result.Message == msg
 //@   modifies nothing
 
-//@ func Evaluator.evalExpr [C01,C08,C11]
+//@ func Evaluator.evalExpr [C01,C07,C08,C11,C13,C15,C19]
 //@   modifies valueHeap, e.stackTop, e.returnVal
 //@   requires evOK(e) && expr != nil && !$faulted
 //@   updates $faulted, $out
@@ -493,6 +493,9 @@ package lang
 //@   after Evaluator.evalCaseMatch: $nmatch = (ret0 && ret2 == nil ? $nmatch + 1 : $nmatch)
 //@   after Evaluator.evalStatement: $ranBlock = true
 //@   after Evaluator.evalExpr: $lastCell = ret0
+//@   init $calleeSeen = false
+//@   after Evaluator.evalExpr: $calleeSeen = true
+//@   assert[C07,C15] callee-and-receiver-are-evaluated-before-the-arguments: istype(expr, *ExprCall) ==> $calleeSeen @ Evaluator.evalExprList
 //@   init $keyDone = false
 //@   after Evaluator.evalString: $keyDone = true
 //@   after copyValue: $keyDone = false
@@ -628,7 +631,14 @@ package lang
 //@   ensures[C11] fault-latched: $faulted <==> err != nil
 //@   ensures[C09,C11] store-on-scalar-is-error: old(left.Value.ParentObj) != nil && scalarTag(old(left.Value.ParentObj.Tag)) ==> err != nil
 
-//@ func Evaluator.callFunction [C01,C02,C07,C08,C11,C20]
+// C12 (the reported position falls inside the offending construct): every fault callFunction raises
+// itself is reported at the call expression, not at the callee's declaration.
+//@ ghost $callTok Token
+//@ func ExprCall.Token [C12]
+//@   requires expr != nil
+//@   ensures tokOKT(result)
+//@   pure
+//@ func Evaluator.callFunction [C01,C02,C07,C08,C11,C12,C20]
 //@   modifies valueHeap, e.stackTop, e.returnVal
 //@   requires evOK(e) && exp != nil && fn != nil && !$faulted
 //@   updates $faulted, $out
@@ -639,6 +649,8 @@ package lang
 //@   ensures[C11] fault-latched: $faulted <==> isFault(err)
 //@   ensures evok: evOK(e)
 
+//@   after ExprCall.Token: $callTok = ret0
+//@   assert[C12] faults-of-a-call-are-reported-at-the-call: arg1 == $callTok @ Evaluator.error
 //@   after Evaluator.pushFrame: $frame = e.stackTop
 //@   init $bodyRan = false
 //@   after Evaluator.evalStatement: $bodyRan = true
@@ -997,6 +1009,7 @@ package lang
 // block sees the next statement's first token and reports "unexpected end of input".
 //@ ghost $sawEnd bool
 //@ ghost $keyDone bool
+//@ ghost $calleeSeen bool
 //@ func Parser.printStatement [C01,C13]
 //@   requires parserOK(p)
 //@   updates nothing
@@ -1071,10 +1084,11 @@ package lang
 //@   ensures ok: parserOK(p)
 //@   loop 0 invariant ok: parserOK(p) && p.inLoop == old(p.inLoop) && p.inFunction
 
-//@ func Parser.ParseExpression [C01,C11]
+//@ func Parser.ParseExpression [C01,C11,C14]
 //@   requires p != nil && p.lexer != nil && lexOK(p.lexer) && p.rules != nil && tableOK(p.rules)
 //@   updates nothing
 //@   modifies parserState
+//@   ensures[C11,C14] nothing-follows-the-expression: err == nil ==> p.previous != nil && p.previous.Tag == EOF
 //@   ensures[C01] errkind: err == nil || isSyn(err)
 //@   ensures[C01] node: err == nil ==> result0 != nil
 
